@@ -202,8 +202,8 @@ def outEvs (o : Option Nat) (x : Frame) : List Ev :=
   | some q => [.deliver q x]
   | none => []
 
-def dropFlow (now : Nat) (x : Frame) : Flow :=
-  { inPort := none, m := x.hdr, out := none, idle := 10, hard := 10, created := now, touched := now }
+def dropFlow (dip : Bool) (now p : Nat) (x : Frame) : Flow :=
+  { inPort := if dip = true then some p else none, m := x.hdr, out := none, idle := 10, hard := 10, created := now, touched := now }
 def fwdFlow (now p : Nat) (x : Frame) (q : Nat) : Flow :=
   { inPort := some p, m := x.hdr, out := some q, idle := 10, hard := 30, created := now, touched := now }
 
@@ -213,8 +213,20 @@ def verdictEvs (s : Sw) (p : Nat) (x : Frame) : Verdict → List Ev
   | .flood => (s.ports.filter (· ≠ p)).map fun q => .deliver q x
   | .forward q => [.deliver q x]
 
-def verdictTable (t : List Flow) (now p : Nat) (x : Frame) : Verdict → List Flow
-  | .samePort => addFlow t (dropFlow now x)
+/-- the table once the entries of a moved source have been deleted (repaired component only) -/
+def delTable (s : Sw) (p : Nat) (x : Frame) : List Flow :=
+  if s.relearn = true ∧ moved s.mac x.src p = true then s.table.filter (fun e => e.m.src ≠ x.src) else s.table
+
+theorem delTable_def (s : Sw) (p : Nat) (x : Frame) : delTable s p x =
+    if s.relearn = true ∧ moved s.mac x.src p = true then s.table.filter (fun e => e.m.src ≠ x.src) else s.table := rfl
+
+theorem delTable_sub {s : Sw} {p : Nat} {x : Frame} {fl : Flow} (h : fl ∈ delTable s p x) : fl ∈ s.table := by
+  unfold delTable at h; split at h
+  · exact (List.mem_filter.mp h).1
+  · exact h
+
+def verdictTable (t : List Flow) (dip : Bool) (now p : Nat) (x : Frame) : Verdict → List Flow
+  | .samePort => addFlow t (dropFlow dip now p x)
   | .forward q => addFlow t (fwdFlow now p x q)
   | _ => t
 
@@ -225,7 +237,7 @@ def refArrive (s : Sw) (now p : Nat) (x : Frame) : List Flow × List (Nat × Nat
   | none =>
     let mac' := learn s.mac x.src p
     let v := verdict s.transparent mac' p x
-    (verdictTable s.table now p x v, mac', .packetIn :: verdictEvs s p x v)
+    (verdictTable (delTable s p x) s.dropInPort now p x v, mac', .packetIn :: verdictEvs s p x v)
 
 /-- an installed entry, relative to the controller's table and the history -/
 def FlowOK (s : Sw) (fl : Flow) : Prop :=
@@ -279,6 +291,12 @@ theorem arrive_hit (s : Sw) (hI : Inv s) (now p : Nat) (x : Frame) (hp : p ∈ s
     simp [flowActs, ho, doActs, doAct, outEvs, hlt, realSend, hne, Sw.ports, hq1]
 
 
+/-- the optional delete in front of the controller's answer only changes the table the answer is applied to -/
+theorem rxMsgs_pre (re : Sw → Nat → Frame → Sw × List Ev) (σ : Sw) (now src : Nat) (c : Prop) [Decidable c] (ms : List Msg) :
+    rxMsgs re σ now ((if c then [Msg.flowDel src] else []) ++ ms) =
+      rxMsgs re { σ with table := if c then σ.table.filter (fun e => e.m.src ≠ src) else σ.table } now ms := by
+  by_cases h : c <;> simp [h, rxMsgs, rxMsg]
+
 /-- where the controller sends a known unicast destination is a port that exists and differs from the ingress -/
 theorem forward_port_ok (s : Sw) (p : Nat) (x : Frame) (q : Nat)
     (hv : verdict s.transparent (learn s.mac x.src p) p x = .forward q) :
@@ -306,10 +324,13 @@ theorem arrive_miss (s : Sw) (hI : Inv s) (now p : Nat) (x : Frame) (hp : p ∈ 
     (hl : lookup s.table p x = none) :
     ∃ P, AllFree P ∧ arrive s now p x =
       ({ s with seen := (x.src, p) :: s.seen, mac := learn s.mac x.src p, pool := P,
-                table := verdictTable s.table now p x (verdict s.transparent (learn s.mac x.src p) p x) },
+                table := verdictTable (delTable s p x) s.dropInPort now p x (verdict s.transparent (learn s.mac x.src p) p x) },
        .packetIn :: verdictEvs s p x (verdict s.transparent (learn s.mac x.src p) p x)) := by
   have hp1 : p ∈ List.range' 1 s.nports := hp
-  simp only [arrive, rxPacket, Sw.ports, if_pos hp1, hl]
+  simp only [arrive, rxPacket, Sw.ports, if_pos hp1, hl, relearnMsgs, rxMsgs_pre]
+  simp only [← delTable_def]
+  have hl' : lookup (delTable s p x) p x = none :=
+    lookup_none.mpr fun e he => lookup_none.mp hl e (delTable_sub he)
   cases hv : verdict s.transparent (learn s.mac x.src p) p x with
   | filtered =>
     rcases pool_cycle s.pool (x, p) hI.free with ha | ⟨P', id, P'', ha, hu, hf⟩
@@ -337,7 +358,7 @@ theorem arrive_miss (s : Sw) (hI : Inv s) (now p : Nat) (x : Frame) (hp : p ∈ 
     rcases pool_cycle s.pool (x, p) hI.free with ha | ⟨P', id, P'', ha, hu, hf⟩
     · refine ⟨s.pool, hI.free, ?_⟩
       have hm : (fwdFlow now p x q).matchesPkt p x := by simp [Flow.matchesPkt, fwdFlow]
-      have hl2 := lookup_addFlow_of_miss hl hm
+      have hl2 := lookup_addFlow_of_miss hl' hm
       have ht := touch_of_fresh hl2 (by simp [fwdFlow] : (fwdFlow now p x q).touched = now)
       simp only [fwdFlow] at hl2 ht
       have hp2 : 1 ≤ p ∧ p < 1 + s.nports := List.mem_range'_1.mp hp1
@@ -417,7 +438,7 @@ theorem arrive_inv (s : Sw) (hI : Inv s) (now p : Nat) (x : Frame) : Inv (arrive
       rw [he]
       have hmono : ∀ fl, FlowOK s fl →
           FlowOK { s with seen := (x.src, p) :: s.seen, mac := learn s.mac x.src p, pool := P,
-                          table := verdictTable s.table now p x (verdict s.transparent (learn s.mac x.src p) p x) } fl :=
+                          table := verdictTable (delTable s p x) s.dropInPort now p x (verdict s.transparent (learn s.mac x.src p) p x) } fl :=
         fun fl h => flowOK_mono (s := s) rfl (fun _ h => macGet_learn_ne_none h) (fun e he => List.mem_cons_of_mem _ he) h
       refine ⟨hI.nports_ok, hP, ?_, ?_, ?_⟩
       · intro e he
@@ -431,8 +452,8 @@ theorem arrive_inv (s : Sw) (hI : Inv s) (now p : Nat) (x : Frame) : Inv (arrive
       · intro fl hfl
         simp only at hfl
         rcases verdict_cases s.transparent (learn s.mac x.src p) p x with ⟨_, hv⟩ | ⟨hnf, ⟨_, hv⟩ | ⟨hu, q, hg, ⟨hq, hv⟩ | ⟨hq, hv⟩⟩⟩
-        · rw [hv] at hfl; exact hmono fl (hI.flows fl hfl)
-        · rw [hv] at hfl; exact hmono fl (hI.flows fl hfl)
+        · rw [hv] at hfl; exact hmono fl (hI.flows fl (delTable_sub hfl))
+        · rw [hv] at hfl; exact hmono fl (hI.flows fl (delTable_sub hfl))
         · rw [hv] at hfl
           rcases mem_addFlow hfl with h | h
           · subst h
@@ -441,7 +462,7 @@ theorem arrive_inv (s : Sw) (hI : Inv s) (now p : Nat) (x : Frame) : Inv (arrive
             simp only [Filtered, not_and, not_or] at hnf
             have := hnf htr
             simpa [dropFlow, Frame.hdr] using this
-          · exact hmono fl (hI.flows fl h)
+          · exact hmono fl (hI.flows fl (delTable_sub h))
         · rw [hv] at hfl
           rcases mem_addFlow hfl with h | h
           · subst h
@@ -455,7 +476,7 @@ theorem arrive_inv (s : Sw) (hI : Inv s) (now p : Nat) (x : Frame) : Inv (arrive
               subst hq'
               have hm := (forward_port_ok s p x q hv).2
               exact ⟨List.mem_cons_of_mem _ (hI.mac_seen _ hm), p, rfl, hq⟩
-          · exact hmono fl (hI.flows fl h)
+          · exact hmono fl (hI.flows fl (delTable_sub h))
   · simp only [arrive, if_neg hp]; exact hI
 
 theorem sweep_inv (s : Sw) (hI : Inv s) (now : Nat) : Inv (sweep s now) := by
@@ -463,7 +484,8 @@ theorem sweep_inv (s : Sw) (hI : Inv s) (now : Nat) : Inv (sweep s now) := by
   intro fl hfl
   exact hI.flows fl (List.mem_filter.mp hfl).1
 
-theorem init_inv (nports bufs : Nat) (tr : Bool) (h : nports < OFPP_MAX) : Inv (init nports bufs tr) := by
+theorem init_inv (nports bufs : Nat) (tr : Bool) (h : nports < OFPP_MAX) (rl : Bool := false) (dip : Bool := false) :
+    Inv (init nports bufs tr rl dip) := by
   refine ⟨h, allFree_init bufs, ?_, ?_, ?_⟩ <;> simp [init]
 
 
@@ -557,6 +579,53 @@ theorem hit_port_ok {s : Sw} (hI : Inv s) {p : Nat} {x : Frame} {fl : Flow} (hl 
   rcases hmatch.1 with h | h
   · rw [hin] at h; cases h
   · rw [hin] at h; cases h; exact hne
+
+
+/-! ## Part 5: the flow cache in virtual time -/
+
+/-- every entry carries the timeouts l2_learning gives it: idle 10 s, hard 30 s (forwarding) or 10 s (same-port drop) -/
+def Timed (s : Sw) : Prop := ∀ fl ∈ s.table, fl.idle = 10 ∧ (fl.hard = 10 ∨ fl.hard = 30)
+
+theorem arrive_timed (s : Sw) (hI : Inv s) (hT : Timed s) (now p : Nat) (x : Frame) : Timed (arrive s now p x).1 := by
+  by_cases hp : p ∈ s.ports
+  · cases hl : lookup s.table p x with
+    | some fl =>
+      rw [arrive_hit s hI now p x hp fl hl]
+      intro fl' hfl'
+      obtain ⟨e0, h0, h1⟩ := mem_touch hfl'
+      rcases h1 with h1 | h1 <;> (rw [h1]; exact hT e0 h0)
+    | none =>
+      obtain ⟨P, _, he⟩ := arrive_miss s hI now p x hp hl
+      rw [he]
+      intro fl hfl
+      simp only at hfl
+      cases hv : verdict s.transparent (learn s.mac x.src p) p x with
+      | filtered => rw [hv] at hfl; exact hT fl (delTable_sub hfl)
+      | flood => rw [hv] at hfl; exact hT fl (delTable_sub hfl)
+      | samePort =>
+        rw [hv] at hfl
+        rcases mem_addFlow hfl with h | h
+        · subst h; simp [dropFlow]
+        · exact hT fl (delTable_sub h)
+      | forward q =>
+        rw [hv] at hfl
+        rcases mem_addFlow hfl with h | h
+        · subst h; simp [fwdFlow]
+        · exact hT fl (delTable_sub h)
+  · rw [arrive_bad_port s now p x hp]; exact hT
+
+theorem sweep_timed (s : Sw) (hT : Timed s) (now : Nat) : Timed (sweep s now) :=
+  fun fl hfl => hT fl (List.mem_filter.mp hfl).1
+
+/-- right after a sweep no installed entry is older than its hard timeout or idle for longer than its idle timeout -/
+theorem sweep_bounds (s : Sw) (hT : Timed s) (now : Nat) :
+    ∀ fl ∈ (sweep s now).table, now - fl.touched ≤ 10000 ∧ now - fl.created ≤ 30000 := by
+  intro fl hfl
+  obtain ⟨hm, hne⟩ := List.mem_filter.mp hfl
+  obtain ⟨hi, hh⟩ := hT fl hm
+  rcases hh with hh | hh <;>
+  · simp [Flow.expired, hi, hh] at hne
+    omega
 
 
 end Pox.L2
